@@ -7,8 +7,10 @@ from vlib.core import *
 SPEC = os.path.join(VERIF, "specs", "Revocation")
 HARNESS = ["harness/db/c13_revocation_test.go"]
 PROPERTY_INVS = ("ReplicaExact", "NoSilentDrop", "RevokedUnfetchable", "NoSpuriousRevoke")
-CHUNK = 800           # behaviours per go test / TLC validation run
+CHUNK = 1200          # behaviours per go test / TLC validation run
 STATE_KEYS = ("pr", "docs")
+QUERY_PAGE = 2        # channel query page of the test database (CacheOptions.ChannelQueryLimit): the gateway's own pagination loops
+                      # in changesFeed / buildRevokedFeed run in every behaviour, not only under a client limit
 
 MC_QUICK = ["MC_Revocation.cfg", "MC_Revocation_roles.cfg", "MC_Revocation_grants.cfg", "MC_Revocation_pages.cfg"]
 MC_THOROUGH = ["MC_Revocation_thorough.cfg", "MC_Revocation_roles_thorough.cfg", "MC_Revocation_grants_thorough.cfg",
@@ -35,9 +37,20 @@ def run(ctx):
         c.sort(key=lambda x: (len(x), json.dumps(x, sort_keys=True)))
         cands += [("cand", x) for x in c[:6 if q else 40]]
         rnd.shuffle(b)
-        nontriv += [("mc", x) for x in b[:110 if q else 600]]
+        nontriv += [("mc", x) for x in b[:90 if q else 600]]
     if not q:
         model_check(ctx, SPEC, "MC_Revocation", "MC_Revocation_roles.cfg", timeout=6000, coverage=True, count=False)
+    # the directed family "paged revocation" (MC_Revocation.tla PagedSpec): >= 3 documents in the revoked channel, one possibly also
+    # in a kept channel, access through a role / directly / both, every order of role-loses-channel / user-loses-role /
+    # user-loses-channel / role-deleted, limits {0,1,2}, every page boundary.  Model-checked as a whole; ALL its behaviours
+    # are exported (quick: a seeded sample is replayed, thorough: all)
+    r = model_check(ctx, SPEC, "MC_Revocation", "MC_Revocation_paged.cfg", timeout=3000, coverage=False)
+    paged = printed(r, "BEH")
+    ctx.cov["paged_family"] = len(paged)
+    if len(paged) < 300:
+        raise Inconclusive("the paged-revocation family shrank to %d behaviours" % len(paged))
+    rnd.shuffle(paged)
+    paged = paged[:300 if q else len(paged)]
     ctx.cov["exhaustive"] = True
 
     # 2. more behaviours, generated concurrently: all action sequences of a tiny instance (seeded sample) and seeded TLC
@@ -49,18 +62,21 @@ def run(ctx):
     ])
     small = gen[0]
     rnd.shuffle(small)
-    small = small[:60 if q else 400]
+    small = small[:40 if q else 400]
     sim = pick_sim(gen[1], rnd, 100 if q else 1000)
     sim2 = pick_sim(gen[2], rnd, 150 if q else 1200)
     jobs = [{"id": i, "kind": k, "steps": b} for i, (k, b) in enumerate(
-        cands + nontriv + [("beh", b) for b in small] + [("sim", b) for b in sim] + [("sim2", b) for b in sim2])]
+        cands + nontriv + [("paged", b) for b in paged] + [("beh", b) for b in small] + [("sim", b) for b in sim] + [("sim2", b) for b in sim2])]
     for k in range(0, len(jobs), CHUNK):
         replay_and_validate(ctx, jobs[k:k + CHUNK], "c%d" % (k // CHUNK))
 
     ctx.cov["rule"] = ("behaviours = model candidates (shortest first) + a seeded sample of the model checker's distinct states that end in a "
                        "completed pull with a revoked / removed / deleted / back-fill row (4 bounded instances: admin grants + document moves; "
                        "one role incl. deletion and re-creation; granting documents; paging with other actions between pages) + a seeded sample "
-                       "of ALL action sequences of length 4 over {u1, d1, A, B} + seeded TLC simulations: length 12 over 2 users / 2 roles / "
+                       "of ALL action sequences of length 4 over {u1, d1, A, B} + the directed, exhaustively generated family 'paged revocation' "
+                       "(576 behaviours: 3 documents in the revoked channel, one possibly also in a kept channel, access through a role / "
+                       "directly / both, every order of role-loses-channel / user-loses-role / user-loses-channel / role-deleted, limits {0,1,2}, "
+                       "every page boundary; quick replays a seeded 300, thorough all) + seeded TLC simulations: length 12 over 2 users / 2 roles / "
                        "3 channels / 3 documents (admin grants to users and roles, role assignment by admin and by sync function, role deletion "
                        "and re-creation, channel grants by granting documents, document moves / deletes / resurrection, principal reloads at "
                        "arbitrary points, pulls with limits 0/1/2 and other actions between the pages of a pull) and length 10 over 1 user / "
@@ -77,7 +93,7 @@ def run(ctx):
         "(5 entries per channel) are outside the bounds; one named collection (history of a re-created role is per collection)",
         "the client resumes from the STRING form of the last sequence received (also that of the _user pseudo-row); LowSeq is always 0 "
         "(no skipped sequences); no star channel, no conflicting revisions, the pulling user is never deleted",
-        "Rosmar + views stand for the channel / access queries",
+        "Rosmar + views stand for the channel / access queries; the test database pages channel queries by 2 (ChannelQueryLimit)",
     ]
 
 
@@ -155,7 +171,7 @@ def run_harness(ctx, jobs, tag):
     tr = os.path.join(ctx.scratch, "c13-%s.ndjson" % tag)
     write_json(bf, [{"id": j["id"], "steps": j["steps"]} for j in jobs])
     for attempt in (1, 2):      # an infrastructure failure (change cache stall under load, ...) is retried once, then inconclusive
-        rc, out = go_test(ctx, "db", "^TestVerif_C13_Revocation$", HARNESS, env={"VERIF_BEH": bf, "VERIF_TRACE_OUT": tr}, timeout=3600)
+        rc, out = go_test(ctx, "db", "^TestVerif_C13_Revocation$", HARNESS, env={"VERIF_BEH": bf, "VERIF_TRACE_OUT": tr, "VERIF_C13_QLIMIT": QUERY_PAGE}, timeout=3600)
         if rc == 0 and os.path.exists(tr):
             return tr, read_ndjson(tr)
         ctx.notes.append("harness run %s attempt %d failed: %s" % (tag, attempt, harness_failure(out)[:400]))
